@@ -82,7 +82,7 @@ let opts_str (o : options) =
       b01 o.o_add_backward; b01 o.o_fuzzy; (match o.o_engine with EngSimple -> "0" | EngChewing -> "1" | EngFuzzy -> "2");
       b01 o.o_fw_toggle ]
 
-let snapshot (e : med) =
+let snapshot (e : medl) =
   let s = e.sh in
   let st =
     match e.st with
@@ -102,7 +102,7 @@ let snapshot (e : med) =
   Printf.sprintf "%s %s cursor=%d stack=%s nth=%d syl=%d last=%s commit=%s notice=%s dirty=%d opts=%s" st
     (comp_str s.com.inner) (int_of_nat s.com.cursor)
     (String.concat "," (Stdlib.List.map (fun c -> string_of_int (int_of_nat c)) (Stdlib.List.rev s.com.cursor_stack)))
-    (int_of_nat s.nth) (int_of_n s.syl) (behavior_str s.last) (cps s.commit_buf) (cps s.notice) (int_of_n s.dirty)
+    (int_of_nat s.nth) (int_of_n (ml_syl_read e)) (behavior_str s.last) (cps s.commit_buf) (cps s.notice) (int_of_n s.dirty)
     (opts_str s.opts)
 
 let key_str k = String.concat "." (Stdlib.List.map (fun x -> string_of_int (int_of_n x)) k)
@@ -119,20 +119,20 @@ let user_str (d : memdict) =
 
 (* ---- the oracle ---- *)
 let queue : logged list ref = ref []
-let cur_editor : med option ref = ref None
+let cur_editor : medl option ref = ref None
 let problems : string list ref = ref []
 let pending : (composition * logged) list ref = ref []
 
-let validate_pending (before : med option) (after : med option) =
+let validate_pending (before : medl option) (after : medl option) =
   Stdlib.List.iter
     (fun (c, l) ->
-      let ok e = match e with Some e -> m_valid_conv e c l.l_result | None -> false in
+      let ok e = match e with Some e -> ml_valid_conv e c l.l_result | None -> false in
       (* the engine model (Model/Engine.v) predicts the alternative itself whenever it is exact *)
       let predicted e =
         match e with
         | None -> false
         | Some e -> (
-            match m_engine_alts e c with
+            match ml_engine_alts e c with
             | Lib.Ok (alts, big) ->
                 big
                 ||
@@ -173,41 +173,42 @@ let parse_opts s =
 (* the index field of a key event: the harness takes it from Qwerty.map(code idx_of); on Qwerty
    INDEX_MAP is the identity on the matrix position and KEYCODE_INDEX lists the codes in
    discriminant order, so index = idx_of (checked by the correspondence itself) *)
-let run_op (e : med) (words : string list) : (med * string) Lib.outcome =
+let run_op (e : medl) (words : string list) : (medl * string) Lib.outcome =
   let ok2 r = match r with Lib.Ok (e', b) -> Lib.Ok (e', b01 b) | Lib.Err x -> Lib.Err x | Lib.Panic s -> Lib.Panic s | Lib.OutOfFuel -> Lib.OutOfFuel in
   let ok1 r tag = match r with Lib.Ok e' -> Lib.Ok (e', tag) | Lib.Err x -> Lib.Err x | Lib.Panic s -> Lib.Panic s | Lib.OutOfFuel -> Lib.OutOfFuel in
   match words with
   | [ "key"; idx; code; uni; s; c; cl; n ] ->
       let ev = { kindex = n_of_int (int_of_string idx); kcode = n_of_int (int_of_string code);
                  kunicode = n_of_int (int_of_string uni); mshift = s <> "0"; mctrl = c <> "0"; mcaps = cl <> "0"; mnum = n <> "0" } in
-      (match m_key conv_oracle e ev with
+      (match ml_key conv_oracle e ev with
        | Lib.Ok (e', b) -> Lib.Ok (e', behavior_str b)
        | Lib.Err x -> Lib.Err x | Lib.Panic s -> Lib.Panic s | Lib.OutOfFuel -> Lib.OutOfFuel)
-  | [ "select"; n ] -> ok2 (m_select conv_oracle e (nat_of_int (int_of_string n)))
-  | [ "cancel" ] -> let e', b = m_cancel e in Lib.Ok (e', b01 b)
-  | [ "start" ] -> ok2 (m_start_selecting e)
-  | [ "commit" ] -> ok2 (m_commit conv_oracle e)
-  | [ "clear" ] -> Lib.Ok (m_clear e, "-")
-  | [ "ack" ] -> Lib.Ok (m_ack e, "-")
-  | [ "opts"; o ] -> ok1 (m_set_options e (parse_opts o)) "-"
-  | [ "engine"; k ] -> Lib.Ok (m_set_engine e (match int_of_string k with 0 -> EngSimple | 1 -> EngChewing | _ -> EngFuzzy), "-")
-  | [ "clearsyl" ] -> Lib.Ok (m_clear_syl e, "-")
+  | [ "select"; n ] -> ok2 (ml_select conv_oracle e (nat_of_int (int_of_string n)))
+  | [ "cancel" ] -> let e', b = ml_cancel e in Lib.Ok (e', b01 b)
+  | [ "start" ] -> ok2 (ml_start_selecting e)
+  | [ "commit" ] -> ok2 (ml_commit conv_oracle e)
+  | [ "clear" ] -> Lib.Ok (ml_clear e, "-")
+  | [ "ack" ] -> Lib.Ok (ml_ack e, "-")
+  | [ "opts"; o ] -> ok1 (ml_set_options e (parse_opts o)) "-"
+  | [ "engine"; k ] -> Lib.Ok (ml_set_engine e (match int_of_string k with 0 -> EngSimple | 1 -> EngChewing | _ -> EngFuzzy), "-")
+  | [ "layout"; k ] -> ok1 (ml_set_layout e (n_of_int (int_of_string k))) "-"
+  | [ "clearsyl" ] -> Lib.Ok (ml_clear_syl e, "-")
   | [ "get"; _ ] -> Lib.Ok (e, "-")    (* queries are functions of the state: the model's step is the identity *)
-  | [ "jnext" ] -> ok2 (m_jump_next e)
-  | [ "jprev" ] -> ok2 (m_jump_prev e)
-  | [ "jfirst" ] -> ok2 (m_jump_first e)
-  | [ "jlast" ] -> ok2 (m_jump_last e)
+  | [ "jnext" ] -> ok2 (ml_jump_next e)
+  | [ "jprev" ] -> ok2 (ml_jump_prev e)
+  | [ "jfirst" ] -> ok2 (ml_jump_first e)
+  | [ "jlast" ] -> ok2 (ml_jump_last e)
   | [ "learn"; kt ] ->
       (match split '|' kt with
-       | [ k; t ] -> ok2 (m_learn e (ns_of '.' k) (ns_of '.' t))
+       | [ k; t ] -> ok2 (ml_learn e (ns_of '.' k) (ns_of '.' t))
        | _ -> failwith "learn")
   | [ "unlearn"; kt ] ->
       (match split '|' kt with
-       | [ k; t ] -> ok1 (m_unlearn e (ns_of '.' k) (ns_of '.' t)) "1"
+       | [ k; t ] -> ok1 (ml_unlearn e (ns_of '.' k) (ns_of '.' t)) "1"
        | _ -> failwith "unlearn")
   | _ -> failwith ("bad op " ^ String.concat " " words)
 
-let observe oc (e : med) =
+let observe oc (e : medl) =
   (* one conversion for the display, answered by the DCONV line *)
   try
     let ivs = conversion conv_oracle e.sh in
@@ -223,7 +224,7 @@ let observe oc (e : med) =
       go 0 ivs
     in
     let cands =
-      match (m_candidates e, m_total_page e, ed_page_no e) with
+      match (ml_candidates e, ml_total_page e, ed_page_no e) with
       | Lib.Ok (Some c), Lib.Ok (Some tp), Some pg ->
           Printf.sprintf "cands=%d:%s tp=%d pg=%d" (Stdlib.List.length c) (String.concat "," (Stdlib.List.map cps c)) (int_of_nat tp)
             (int_of_nat pg)
@@ -277,9 +278,9 @@ let conv_main trace out =
             | k :: _, Some c when not (Stdlib.List.mem k !engines_done) ->
                 engines_done := k :: !engines_done;
                 let d = { md_sys = !sys; md_user = !usr; md_grave = [] } in
-                let e0 = m_init d [] { ss_category = []; ss_table = []; ss_cursor = None } (n_of_int 0) in
-                let e = m_set_engine e0 (match int_of_string k with 0 -> EngSimple | 1 -> EngChewing | _ -> EngFuzzy) in
-                (match m_engine_alts e c with
+                let e0 = ml_init d (n_of_int 0) [] { ss_category = []; ss_table = []; ss_cursor = None } (n_of_int 0) in
+                let e = ml_set_engine e0 (match int_of_string k with 0 -> EngSimple | 1 -> EngChewing | _ -> EngFuzzy) in
+                (match ml_engine_alts e c with
                  | Lib.Ok (alts, big) ->
                      Printf.fprintf oc "MX %s exact=%s n=%d\n" k (b01 (not big)) (Stdlib.List.length alts);
                      Stdlib.List.iter
@@ -293,9 +294,9 @@ let conv_main trace out =
             | k :: ivs, Some c when (match ivs with "PANIC" :: _ -> false | _ -> true) ->
                 let ivs = parse_intervals (String.concat " " ivs) in
                 let d = { md_sys = !sys; md_user = !usr; md_grave = [] } in
-                let e0 = m_init d [] { ss_category = []; ss_table = []; ss_cursor = None } (n_of_int 0) in
-                let e = m_set_engine e0 (match int_of_string k with 0 -> EngSimple | 1 -> EngChewing | _ -> EngFuzzy) in
-                Printf.fprintf oc "V %s valid=%s tiling=%s\n" k (b01 (m_valid_conv e c ivs)) (b01 (Conversion.tiling_ok c ivs))
+                let e0 = ml_init d (n_of_int 0) [] { ss_category = []; ss_table = []; ss_cursor = None } (n_of_int 0) in
+                let e = ml_set_engine e0 (match int_of_string k with 0 -> EngSimple | 1 -> EngChewing | _ -> EngFuzzy) in
+                Printf.fprintf oc "V %s valid=%s tiling=%s\n" k (b01 (ml_valid_conv e c ivs)) (b01 (Conversion.tiling_ok c ivs))
             | k :: _, _ -> Printf.fprintf oc "V %s PANIC\n" k
             | _ -> ())
        | _ -> ()
@@ -312,7 +313,8 @@ let main args =
       let ic = open_in trace in
       let oc = open_out out in
       let sys = ref [] and usr = ref [] and abbr = ref [] and symcat = ref [] and symtab = ref [] in
-      let ed : med option ref = ref None in
+      let layout0 = ref 0 in
+      let ed : medl option ref = ref None in
       let dead = ref false in
       let pending_op : string list option ref = ref None in
       let convs : logged list ref = ref [] in
@@ -374,7 +376,7 @@ let main args =
                flush_op ();
                caseno := int_of_string (String.trim rest);
                Printf.fprintf oc "CASE %d\n" !caseno;
-               sys := []; usr := []; abbr := []; symcat := []; symtab := []; ed := None; dead := false
+               sys := []; usr := []; abbr := []; symcat := []; symtab := []; ed := None; dead := false; layout0 := 0
            | "SYS" ->
                (match split '|' rest with
                 | [ k; t; f ] ->
@@ -394,6 +396,7 @@ let main args =
                     let c = n_of_int (int_of_string c) in
                     abbr := (c, ns_of '.' e) :: Stdlib.List.filter (fun (c', _) -> c' <> c) !abbr
                 | _ -> failwith "ABBR")
+           | "LAYOUT" -> layout0 := int_of_string (String.trim rest)
            | "SYMSEL" ->
                (match split '=' rest with
                 | [ name; tab ] ->
@@ -404,7 +407,7 @@ let main args =
            | "INIT" ->
                let d = { md_sys = !sys; md_user = !usr; md_grave = [] } in
                let ss = { ss_category = Stdlib.List.rev !symcat; ss_table = Stdlib.List.rev !symtab; ss_cursor = None } in
-               ed := Some (m_init d !abbr ss (n_of_int (int_of_string (String.trim rest))))
+               ed := Some (ml_init d (n_of_int !layout0) !abbr ss (n_of_int (int_of_string (String.trim rest))))
            | "OP" ->
                flush_op ();
                pending_op := Some (Stdlib.List.filter (fun w -> w <> "") (split ' ' rest))
